@@ -16,9 +16,9 @@ RULE = ('every grammar sentence (clause or directive) with <= N tokens over one 
         'completely: numeral spellings (0 00 01 007 10 123 20 digits) x 5 term positions; characters outside the lexicon (byte order marks, zero-width space, NUL, ^Z, no-break space) as first / last / only character; numerals of 50 .. 9000 digits (around Python\'s limit of 4300 digits); 16 variable names that are '
         'Python constants / engine names / loop-variable look-alikes x 4 clause shapes; 24 predicate names (Python '
         'keywords, suffix look-alikes, quoted names with spaces, operators, digits, non-ASCII, empty) as clause head; '
-        'bodies that cannot succeed; 26 words of the target language (yield, return, pass, doBreak, ...) as atoms, functor names and goal names in succeeding and never-succeeding clauses; conjunction length 1..30, a grid of mixed sizes (0..20 goals x if-then-else nested 0..12 deep x 0/4/9 structured head arguments; 1..25 negated goals; 1..9 if-then-else goals in sequence), head arity 0..40, term nesting 1..120, list length '
+        'bodies that cannot succeed; one predicate name spelled in several ways; 26 words of the target language (yield, return, pass, doBreak, ...) as atoms, functor names and goal names in succeeding and never-succeeding clauses; conjunction length 1..30, a grid of mixed sizes (0..20 goals x if-then-else nested 0..12 deep x 0/4/9 structured head arguments; 1..25 negated goals; 1..9 if-then-else goals in sequence), head arity 0..40, term nesting 1..120, list length '
         '0..300, disjunction / if-then-else / negation nesting 1..12. Every family program is compiled alone and between two ordinary predicates; every text is also written to ONE file (rewritten for each text) and compiled through compile_prolog_from_file, which must return exactly what compile_prolog_from_string returns for the text the file holds now. If the compiler returns text: it must compile as '
-        'Python, its module body must be function definitions only, loading it must add exactly the keys name_arity '
+        'Python, its module body must be function definitions only, each name defined once, loading it must add exactly the keys name_arity '
         'of the clause heads (RefGrammar), each a generator function, each callable through query without a '
         'NameError/TypeError/UnboundLocalError. A CompilerError is accepted instead of code. states = distinct '
         '(outcome, defined key set) classes; transitions = compile+load+query operations; non-trivial = code was '
@@ -49,6 +49,11 @@ def families():
     # decodes the bytes itself
     for ch in ('\ufeff', '\ufffe', '\u200b', '\x00', '\x1a', '\xa0', '#'):
         out += [('foreign-first-character', t) for t in (ch + 'foo(a).', ch, 'foo(a).' + ch, 'foo(a).\n' + ch + 'bar(b).', ch + ch + 'foo(a).')]
+    # one predicate whose name is SPELLED in several ways (unquoted, quoted, quoted with an escaped
+    # quote elsewhere in the program), its clauses contiguous or not
+    for a_, b_ in (('colour', "'colour'"), ("'colour'", 'colour'), ("'it\\'s'", "'it\\'s'"), ('[]', "'[]'")):
+        out += [('spellings', t) for t in ('%s(red).\n%s(green).\n' % (a_, b_), '%s(red).\nother(x).\n%s(green).\n%s(blue).\n' % (a_, b_, a_),
+                                          '%s(X) :- %s(X, y).\n%s(a, y).\n%s(b, y).\n' % (a_, b_, a_, b_))]
     vs = ['X', 'True', 'False', 'None', 'ATOM_NIL', 'Query', 'L1', 'Arg1', '_x', '__', '_1', 'X_y', 'DoBreak', 'CutIf1',
           'Yield', '__builtins__', '_L1', 'Unify']
     for v in vs:
@@ -182,6 +187,16 @@ def check_text_1(text, tag=None):
         probs = [p for p in pyast.check_module(out) if p[0] == 'module-level-statement']
     except RecursionError:
         probs = []
+    # exactly ONE function per predicate: a second def of the same name silently replaces the first
+    try:
+        import ast as _ast
+        import collections as _c
+        defs = _c.Counter(n.name for n in _ast.parse(out).body if isinstance(n, _ast.FunctionDef))
+        dup = sorted(k for k, v in defs.items() if v > 1)
+    except (RecursionError, SyntaxError):
+        dup = []
+    if dup:
+        return ('violation', 'function-defined-more-than-once', 'text: %r\nthe returned text defines %s more than once' % (text[:300], dup), None)
     if probs:
         return ('violation', 'module-level-statement', 'text: %r\n%s' % (text[:300], probs[0][1]), None)
     yp = impl.YP()
